@@ -432,6 +432,11 @@ pub fn run(ctx: &Ctx, mode: Mode) -> i32 {
   deep.extend(universe(&UniverseSpec { name: "D1", dmax: 1, chain: Chain::First, partial: mode != Mode::Moc, unpacked: false, other_bases: &[11], all_depth_max: false }));
   let info = search(ctx, mode, "deep-degenerate", deep, if mode == Mode::Moc { 2 } else { 1 }, &mut total);
   searches.push(info);
+  // operands of realistic size: coverage outputs at depths 5..8 (hundreds to thousands of cells,
+  // many depth levels per operand); for C07 they are turned into canonical all-full MOCs
+  let cov = coverage_operands(mode, ctx.quick());
+  let info = search(ctx, mode, "coverage-sized-operands", cov, 1, &mut total);
+  searches.push(info);
   let mut extra = Map::new();
   extra.insert("searches".into(), json!(searches));
   let what = match mode {
@@ -450,6 +455,61 @@ pub fn run(ctx: &Ctx, mode: Mode) -> i32 {
       "BMOC tree shapes outside the universes (more than two subdivided chains, other active base cells) are outside the bound".into()],
     extra,
   )
+}
+
+/// BMOCs produced by cone / polygon / ellipse queries at depths 5..8, as operands.
+pub fn coverage_operands(mode: Mode, quick: bool) -> Vec<Bm> {
+  use cdshealpix::nested;
+  let mut v: Vec<Bm> = vec![];
+  let depths: &[u8] = if quick { &[5, 7] } else { &[5, 6, 7, 8] };
+  let centres = [(0.1234, 0.2345), (1.0, 1.2), (0.0, -1.1596584644725487), (5.5, -0.2), (3.1, 0.7297)];
+  for &d in depths {
+    for &(lon, lat) in &centres {
+      for &r in &[0.02, 0.11, 0.4] {
+        if let Ok(b) = guarded(move || nested::cone_coverage_approx(d, lon, lat, r)) {
+          v.push(Bm::from_impl(&b));
+        }
+      }
+      if let Ok(b) = guarded(move || nested::elliptical_cone_coverage(d, lon, lat, 0.3, 0.05, 0.7)) {
+        v.push(Bm::from_impl(&b));
+      }
+      if lat.abs() < 1.0 {
+        let poly = crate::c12::make_polygon(lon, lat, 5, 0.2, 1.0, 0.3, false);
+        if let Ok(b) = guarded(move || nested::polygon_coverage(d, &poly, false)) {
+          v.push(Bm::from_impl(&b));
+        }
+      }
+    }
+  }
+  v.retain(|b| b.to_map().is_ok());
+  if mode == Mode::Moc {
+    // every covered cell becomes full; canonical (packed) form computed by the reference model
+    v = v
+      .into_iter()
+      .map(|b| {
+        let m = b.to_map().unwrap();
+        let full = RangeMap { depth: m.depth, ranges: merge_full(&m.ranges) };
+        Bm::new(b.depth_max, full.canonical_moc())
+      })
+      .collect();
+  }
+  v.sort();
+  v.dedup();
+  v
+}
+
+fn merge_full(ranges: &[(u64, u64, u8)]) -> Vec<(u64, u64, u8)> {
+  let mut out: Vec<(u64, u64, u8)> = vec![];
+  for &(s, e, _) in ranges {
+    if let Some(l) = out.last_mut() {
+      if l.1 == s {
+        l.1 = e;
+        continue;
+      }
+    }
+    out.push((s, e, FULL));
+  }
+  out
 }
 
 pub fn replay(case: &Value, mode: Mode) -> Option<Viol> {
